@@ -410,6 +410,53 @@ Definition compose_opt (c : tcfg) (oh : opt_hdr) (opts : list (N * N * bytes)) (
     | other => other
     end)).
 
+Fixpoint opts_bytes (opts : list (N * N * bytes)) : bytes :=
+  match opts with
+  | [] => []
+  | (code, dlen, data) :: r => be16 code ++ be16 dlen ++ data ++ opts_bytes r
+  end.
+(* OptBuilder::clone_from(source) as the closure of AdditionalBuilder::opt,
+   step by step: OptBuilder::new and build's placeholder as above, then
+   clone_from: target.truncate(self.start) and source.as_record().compose(target)
+   (root owner through append_compressed_name, type OPT, class = UDP size, TTL =
+   ext rcode / version / flags, then compose_len_rdata of Opt: its rdlen() is
+   Some, the length and all option octets in one append_slice each), then the
+   end of build: the length measured from the old placeholder position is
+   patched in (again). *)
+Definition oh_ttl (oh : opt_hdr) : N := oh_ext oh * 16777216 + oh_ver oh * 65536 + oh_flags oh.
+Definition P_SUB : N := 24.        (* usize underflow in `target.len() - pos` *)
+
+Definition compose_opt_clone (c : tcfg) (oh : opt_hdr) (opts : list (N * N * bytes)) (w : ws) : wres :=
+  let start := mlen (w_buf w) in
+  let data := opts_bytes opts in
+  wbind (append_slice c opt_header_default w) (fun w1 =>
+  wbind (append_slice c [0; 0] w1) (fun w2 =>
+    let pos := mlen (w_buf w2) in
+    let r :=
+      match truncate c start w2 with
+      | WOk w3 =>
+          if rdlen_max <? mlen data then WPanic P_LONG_RDATA else
+          wbind (acn c [] w3) (fun w4 =>
+          wbind (append_slice c (be16 41) w4) (fun w5 =>
+          wbind (append_slice c (be16 (oh_udp oh)) w5) (fun w6 =>
+          wbind (append_slice c (be32 (oh_ttl oh)) w6) (fun w7 =>
+          wbind (append_slice c (be16 (mlen data)) w7) (append_slice c data)))))
+      | other => other
+      end in
+    match r with
+    | WOk w8 =>
+        if mlen (w_buf w8) <? pos then WPanic P_SUB else
+        let len := mlen (w_buf w8) - pos in
+        if len <=? rdlen_max then WOk (set_buf w8 (patch16 (pos - 2) len (w_buf w8)))
+        else match truncate c pos w8 with WOk w9 => WErr w9 | other => other end
+    | WErr w8 => match truncate c pos w8 with WOk w9 => WErr w9 | other => other end
+    | other => other
+    end)).
+
+(* the closure the script chose *)
+Definition opt_writer (c : tcfg) (oh : opt_hdr) (opts : list (N * N * bytes)) : ws -> wres :=
+  if oh_hdr oh then compose_opt c oh opts else compose_opt_clone c oh opts.
+
 (* ---------------------------------------------------------- the builders *)
 
 Record bstate := mkB {
@@ -575,7 +622,7 @@ Definition step_gen (restore : bool) (c : tcfg) (s : bstate) (o : op) : bstate *
   | OpR r => if b_sec s =? 0 then (s, RNone) else mb_push c s (compose_record c r)
   | OpOpt oh opts =>
       if b_sec s =? 3 then
-        let sr := mb_push c s (compose_opt c oh opts) in
+        let sr := mb_push c s (opt_writer c oh opts) in
         let h1 := match oh_rc oh with
                   | Some v => if oh_hdr oh && opt_reaches_closure c (b_w s) then hdr_set_rcode (b_hdr s) v else b_hdr s
                   | None => b_hdr s
@@ -645,11 +692,6 @@ Definition acc0 : acc := mkAcc [] [] [] [].
 
 (* what an OPT push is as a record: owner root, type/class/ttl from the OPT
    header, record data = the options *)
-Fixpoint opts_bytes (opts : list (N * N * bytes)) : bytes :=
-  match opts with
-  | [] => []
-  | (code, dlen, data) :: r => be16 code ++ be16 dlen ++ data ++ opts_bytes r
-  end.
 Definition opt_record (oh : opt_hdr) (opts : list (N * N * bytes)) : rrecord :=
   mkR [] 41 (oh_udp oh) (oh_ext oh * 16777216 + oh_ver oh * 65536 + oh_flags oh) true
       [RBytes (opts_bytes opts)].
